@@ -5,6 +5,7 @@ package zzverif
 import (
 	"encoding/json"
 	"fmt"
+	"io"
 	"os"
 	"strconv"
 	"testing"
@@ -186,4 +187,108 @@ func RunReplay(t *testing.T, harnesses map[string]func()) {
 	if len(missing) > 0 {
 		fmt.Printf("VERIF-REPLAY-MISSING: %v\n", missing)
 	}
+}
+
+// ---- crash points (native side) ----
+//
+// The source files named in the obligation's crash_files are overlaid for the
+// replay by copies in which os.OpenFile/CreateTemp/Remove/Rename/WriteFile and
+// json.NewEncoder are replaced by the wrappers below (engine/hooks.go).  Each
+// wrapper is a crash point: when the selected one is reached it panics with
+// crashSignal, which Crashable recovers; from then on every wrapper refuses to
+// touch the disk, so deferred clean-ups that run while the panic unwinds
+// cannot do what a dead process could not have done.
+
+type crashSignal struct{}
+
+var (
+	crashArmed bool
+	crashAt    int
+	fsOps      int
+	crashDead  bool
+)
+
+var errCrashed = fmt.Errorf("process has crashed")
+
+func Crashable(k int, op func()) (crashed bool) {
+	crashArmed, crashAt, fsOps, crashDead = true, k, 0, false
+	defer func() {
+		crashArmed = false
+		dead := crashDead
+		crashDead = false
+		if r := recover(); r != nil {
+			if _, ok := r.(crashSignal); ok && dead {
+				crashed = true
+				return
+			}
+			panic(r)
+		}
+	}()
+	op()
+	return false
+}
+
+func FSOps() int { return fsOps }
+
+// fsPoint reports false if the process is dead (the caller must do nothing).
+func fsPoint() bool {
+	if crashDead {
+		return false
+	}
+	if !crashArmed {
+		return true
+	}
+	if fsOps == crashAt {
+		crashDead = true
+		panic(crashSignal{})
+	}
+	fsOps++
+	return true
+}
+
+func OsOpenFile(name string, flag int, perm os.FileMode) (*os.File, error) {
+	if !fsPoint() {
+		return nil, errCrashed
+	}
+	return os.OpenFile(name, flag, perm)
+}
+
+func OsCreateTemp(dir, pattern string) (*os.File, error) {
+	if !fsPoint() {
+		return nil, errCrashed
+	}
+	return os.CreateTemp(dir, pattern)
+}
+
+func OsRemove(name string) error {
+	if !fsPoint() {
+		return errCrashed
+	}
+	return os.Remove(name)
+}
+
+func OsRename(from, to string) error {
+	if !fsPoint() {
+		return errCrashed
+	}
+	return os.Rename(from, to)
+}
+
+func OsWriteFile(name string, data []byte, perm os.FileMode) error {
+	if !fsPoint() {
+		return errCrashed
+	}
+	return os.WriteFile(name, data, perm)
+}
+
+// Encoder wraps json.Encoder: every Encode is one write, hence one crash point.
+type Encoder struct{ *json.Encoder }
+
+func NewEncoder(w io.Writer) *Encoder { return &Encoder{json.NewEncoder(w)} }
+
+func (e *Encoder) Encode(v any) error {
+	if !fsPoint() {
+		return errCrashed
+	}
+	return e.Encoder.Encode(v)
 }
